@@ -123,6 +123,7 @@ type Env struct {
 
 	Violations []Violation
 	Obs        []string
+	WindowFrom int    // decisions before this index are not varied by the explorer
 	Verdict    string // "", "hang", "engine:..."
 	Leaked     []string
 	HangInfo   string
@@ -310,6 +311,9 @@ func (e *Env) Violate(sig, format string, a ...interface{}) {
 	defer e.mu.Unlock()
 	e.Violations = append(e.Violations, Violation{Sig: sig, Detail: fmt.Sprintf(format, a...)})
 }
+
+// OpenWindow marks the current decision index as the first one the explorer may vary.
+func (e *Env) OpenWindow() { e.WindowFrom = len(e.Choices) }
 
 // Observe adds an observation to the execution's outcome digest.
 func (e *Env) Observe(format string, a ...interface{}) {
@@ -669,10 +673,20 @@ func (e *Env) collectLeaks() []string {
 	n := runtime.Stack(buf, true)
 	var out []string
 	me := goid()
-	for _, g := range strings.Split(string(buf[:n]), "\n\n") {
+	gs := strings.Split(string(buf[:n]), "\n\n")
+	bubble := ""
+	for _, g := range gs {
+		hdr, _, _ := strings.Cut(g, "\n")
+		if strings.HasPrefix(hdr, "goroutine "+strconv.FormatUint(me, 10)+" ") {
+			if i := strings.Index(hdr, "synctest bubble "); i >= 0 {
+				bubble = strings.TrimRight(hdr[i:], "]:")
+			}
+		}
+	}
+	for _, g := range gs {
 		hdr, rest, _ := strings.Cut(g, "\n")
-		if !strings.Contains(hdr, "synctest bubble") {
-			continue
+		if bubble == "" || !strings.Contains(hdr, bubble+"]") {
+			continue // not in this execution's bubble (leftovers of earlier executions stay blocked for ever)
 		}
 		if strings.HasPrefix(hdr, "goroutine "+strconv.FormatUint(me, 10)+" ") {
 			continue
